@@ -44,6 +44,11 @@ var sweepWords = []string{
 	"1b", "1B", "1s", "1S", "1l", "1L", "1f", "1F", "1d", "1D", "1i", "1I", "1bb", "1sb", "b1", "B", "I", "L", "B;", "I;", "L;", "[B;", "0b", "-0", "+0", "-0b", "00", "01", "-01", "1.", "1.0", "-.5", "+.5", "-.", "+.", "..", "1..", "1.2.3",
 	"-", "+", ".", "_", "--", "+-", "-+1", "1-1", "1+1", "a-b", "a.b", "a+b", "a_b", "a/b", "/", "a:b", "a,b", "a;b", "a{b", "a}b", "a[b", "a]b", "a\tb", "a\nb", "a\rb", "\x00", "a\x00b", "\x7f",
 	"128b", "-129b", "32768s", "2147483648", "-2147483649", "9223372036854775808L", "9223372036854775807", "3.4e39f", "1e400", "1e400d",
+	// Java's modified UTF-8, the encoding of NBT strings, has byte sequences that are not standard UTF-8: U+0000 is
+	// C0 80 and a supplementary character is a pair of three-byte surrogates. The text form must carry them verbatim.
+	"\xc0\x80", "a\xc0\x80b", "\xed\xa0\xbd\xed\xb8\x80", "x\xed\xa0\xbd\xed\xb8\x80y", "\"\xc0\x80'", "\xc0\x80 \xed\xa0\xbd\xed\xb8\x80",
+	// both quote characters in one string (the writer picks the rarer one and must escape it)
+	"it's a \"test\"", "'a' and \"b\"", "c:\\dir\\\"it's\"", "\"'", "'\"", "\"\"'", "''\"", "\\\"'", "'\\\"",
 }
 
 type strPos struct {
